@@ -5,13 +5,15 @@ from .. import gen, core
 
 ID = "C01"
 STATEFUL = True     # some blocks keep a live object across lines
-LEAN_TARGETS = ["Cider.Props.C01", "Cider.Props.C02Tie"]
+LEAN_TARGETS = ["Cider.Props.C01", "Cider.Props.C02Tie", "Cider.Props.C01Short"]
 OPTIONAL_TARGETS = ["Cider.Props.C01Gen", "Cider.Props.C01Src"]
 OPTIONAL_THEOREMS = {"Cider.Props.C01Src": ['Cider.C01Src.kappaDecision_eq', 'Cider.C01Src.sigmaDecision_eq']}
 P = "Cider.C01."
 THEOREMS = ["Cider.C02.gen_charge_eq_published"] + [P + t for t in (
     "kappa_neg_one_iff", "kappa_eq_ratio", "kappa_nonneg", "kappa_le_one_iff", "kappa_range_iff",
-    "kappa_of_family_member", "kappa_of_dmax_permutant", "kappa_gt_one_witness", "kappa_range_partial")]
+    "kappa_of_family_member", "kappa_of_dmax_permutant", "kappa_gt_one_witness", "kappa_range_partial",
+    # every sequence of at most five residues: delta = 0, delta-max = 0, kappa = -1 (Props/C01Short.lean)
+    "pattern_counts_sum", "deltaForm_whole", "delta_short", "dmax_short", "kappa_short", "kappa_short_seq")]
 RULE = ("each case = one sequence: get_kappa / get_delta / get_deltaMax on fresh objects vs the exact model; the value must be the "
         "clamped ratio (or -1 iff delta-max is 0) AND lie in {-1} U [0,1]; sequences: every charge pattern of length <= 7 (quick) / 9 "
         "(thorough); for every composition up to 9 (quick) / 12 (thorough) residues the TRUE delta-maximising arrangement found by "
@@ -27,6 +29,12 @@ def block(s):
 
 
 def cases(rng, tier):
+    # objects built from sequence files (two per block)
+    for c in gen.file_cases(rng, 12 if tier == "quick" else 100, ['kappa', 'dmax', 'delta']):
+        yield c
+    # objects handed back by the library's own moves / shuffles (also with frozen sets, also from a parent whose cache is warm)
+    for l in core.childq_cases(rng, 90 if tier == "quick" else 600, ['kappa', 'dmax', 'delta']):
+        yield Case([l], {"kind": "object-from-move"})
     # the property's own queries AFTER other public calls on the same object (same answers as on a fresh one)
     for c in gen.after_calls_cases(rng, 16 if tier == "quick" else 120, ['kappa', 'dmax', 'delta']):
         yield c
@@ -69,7 +77,10 @@ def _ratio(specs):
 
 
 def judge(case, reals, gens, specs):
-    if case.tags.get("kind") in ("after-other-calls", "after-calls-on-another-object"):
+    if reals and reals[0][0] == "childq":
+        ok_c, why = core.judge_childq(reals[0])
+        return [] if ok_c else [("violation", 0, why)]
+    if case.tags.get("kind") in ("after-other-calls", "after-calls-on-another-object", "object-from-file"):
         from ..runner import default_judge
         return default_judge(None, case, reals, gens, specs)
     out = []
